@@ -7,4 +7,16 @@ CHECKS = {
   "note": "lists capped at 8 elements; deeper levels use reduced slice/index alphabets; boolean index arrays excluded as in the property",
   "technique": "explicit-state BFS over operation programs on the implementation, differential against a reference model",
  },
+ "C13": {
+  "text": "Every crop box of a per-axis letter product (each side separately inside / fractional / outside; 2-D full product, 3-D reduced) x constrain on/off on 9 image letters (3 classes, 2-D/3-D, uint8/float/bool, 1-5 channels), chained to depth 2 in thorough, is compared bit for bit with plain slicing incl. landmarks, mask, dtype and the refusal contract; patch extraction is run on EVERY integer centre from -2 to S+1 for 6 patch shapes x 3 offset sets x both paths against a per-pixel reference, plus fractional centres and extract/set round trips.",
+  "design_ref": "DESIGN.md 3/C13",
+  "note": "finite letter grids stand for the continuous bounds; resampling path at fractional centres compared on interior points only",
+  "technique": "exhaustive enumeration of a finite input/operation alphabet on the implementation against a slicing / per-pixel reference model (explicit-state exploration, depth 1-2)",
+ },
+ "C20": {
+  "text": "Rotation constructors are explored as a state machine (accumulated rotation, every sequence of angle letters up to depth 2/3 per axis and unit) against Rodrigues' formula, with the reported axis/angle required to reconstruct the matrix; axis-angle and quaternion round trips on a 29x13 axis-angle grid; about-centre transforms on 6 object letters x all transform letters with an offset alphabet; Scale factory letters; texture-coordinate corner tables on 6 image shapes.",
+  "design_ref": "DESIGN.md 3/C20",
+  "note": "continuous quantifiers decided on letter grids; open finding D4 (2-D angle sign) matched by footprint; numpy.random seeded around the 3-D axis-angle query",
+  "technique": "explicit-state BFS over constructor/composition sequences plus exhaustive enumeration of parameter letters, compared with closed-form references",
+ },
 }
